@@ -28,6 +28,12 @@ def clockwork_hook(ctx, call, pol, sim_time, workload, pools):
         elif p.placement_type == PT.CANCEL_TASK:
             decided[id(p.task)] = "cancel"
             ctx.count("cw_cancellations")
+    # evictions decided in the same answer are applied before its placements (EVICT_PROFILE ranks before TASK_PLACEMENT at
+    # one instant): a batch placed on a worker from which the same answer evicts its model runs where the model is not loaded
+    evicted = {(p.worker_id, id(p.work_profile)) for p in call["placements"] if p.placement_type == PT.EVICT_WORK_PROFILE}
+    reloaded = {(p.worker_id, id(p.work_profile)) for p in call["placements"] if p.placement_type == PT.LOAD_WORK_PROFILE}
+    if evicted:
+        ctx.count("cw_answers_with_evictions")
     extra = {}  # demand already promised on a worker by earlier batches of this answer
     for gid, ps in groups.items():
         st = ps[0].execution_strategy
@@ -63,6 +69,9 @@ def clockwork_hook(ctx, call, pol, sim_time, workload, pools):
         if ent is None or ent["available_at"] > now:
             ctx.violate("C15", "model_not_loaded", f"t={now}: batch {names} of model {prof.name} on {sw['name']} where it is "
                                                    f"{'not loaded' if ent is None else 'still loading until ' + str(ent['available_at'])}")
+        if (ps[0].worker_id, id(prof)) in evicted and (ps[0].worker_id, id(prof)) not in reloaded:
+            ctx.violate("C15", "model_evicted_in_same_answer",
+                        f"t={now}: batch {names} of model {prof.name} placed on {sw['name']} by an answer that also evicts {prof.name} from it")
         req = e2e._request(st)
         prior = extra.setdefault(sw["wid"], [])
         free = e2e._shadow_free(sw)
@@ -122,7 +131,8 @@ class ClockworkCheck(E2ECheck):
                 ("placed batches", tot.get("cw_batches", 0), 500),
                 ("placed batches with more than one member", tot.get("cw_batches_gt1", 0), 100),
                 ("cancellations", tot.get("cw_cancellations", 0), 50),
-                ("hopeless requests offered", tot.get("cw_hopeless_offered", 0), 30)]
+                ("hopeless requests offered", tot.get("cw_hopeless_offered", 0), 30),
+                ("answers that evict a model", tot.get("cw_answers_with_evictions", 0), 30)]
 
 
 def get_check(pid):
